@@ -183,7 +183,7 @@ def _owner(b, prog):
 
 
 def r5_issuance_confinement(ctx):
-    r = ctx.rule("R5", "coins / pools / fee_pool / tips are written only inside the enumerated stages, and each stage is called only from its enumerated caller")
+    r = ctx.rule("R5", "coins / pools / fee_pool / tips are written only inside the enumerated stages, and each stage is called only from its enumerated caller", positional=False)
     prog = ctx.prog
     n = {"insert_coin": 0, "remove_coin": 0, "pools": 0}
     for b, bi, t in prog.call_sites(lambda nm, p: nm in ("melstf::state::coins::CoinMapping::insert_coin", "melstf::state::coins::CoinMapping::remove_coin")):
@@ -274,23 +274,38 @@ def r8_subsidy_peg(ctx):
             r.check(not q.stmt_writes(b, fld), "%s/no-%s" % (short, fld), "does not touch %s" % fld, "%s writes %s" % (short, fld))
     r.check(not q.stmt_writes(p, "fee_pool"), "process_pegging/no-fee_pool", "process_pegging does not touch fee_pool", "process_pegging writes fee_pool")
     ws = q.stmt_writes(t, "fee_pool")
-    r.check(len(ws) == 1 and ws[0][0] == "mutref" and ws[0][4] is not None, "subsidy/fee_pool-write", "one += on fee_pool", "fee_pool writes: %d" % len(ws))
-    if ws and ws[0][4]:
-        cb, ct = ws[0][4]
-        e = t.rec_call(ct, cb)
-        ok = mir.callee_name(ct).endswith("add_assign")
-        v = e[2][1]
+    def _added(w):
+        """(block, value added to fee_pool) for `fee_pool += v` and for `fee_pool = fee_pool (saturating) + v`"""
+        if w[0] == "mutref" and w[4] is not None:
+            cb, ct = w[4]
+            if mir.callee_name(ct).endswith("add_assign"):
+                return cb, t.rec_call(ct, cb)[2][1], t.rec_call(ct, cb)
+        if w[0] == "assign":
+            nf = q.arith_nf(w[4])
+            if nf[0] == "bin" and nf[1] == "Add":
+                olds = [x for x in (nf[2], nf[3]) if sig(q.novers(x)).endswith(".fee_pool.0") or sig(q.novers(x)).endswith(".fee_pool")]
+                news = [x for x in (nf[2], nf[3]) if x not in olds]
+                if len(olds) == 1 and len(news) == 1:
+                    return w[1], news[0], w[4]
+        return None
+    adds = [a for a in (_added(w) for w in ws) if a]
+    r.check(len(ws) == 1 and len(adds) == 1, "subsidy/fee_pool-write", "one addition to fee_pool", "fee_pool writes: %d (additions: %d)" % (len(ws), len(adds)))
+    if adds:
+        cb, v, e = adds[0]
+        ok = True
         if v[0] == "agg" and len(v[3]) == 1:
             v = v[3][0][1]
+        if q.is_call(v, "PoolState::swap_many"):
+            v = ("field", v, "0")          # the arithmetic normal form reads through `.0`: the MEL side is the only u128 the sum can take
         ok = ok and v[0] == "field" and v[2] == "0" and q.is_call(v[1], "PoolState::swap_many") and q.const_val(v[1][2][1]) == 0
         r.check(ok, "subsidy/fee_pool-source", "fee_pool += swap_many(mel/sym pool, 0, fee_subsidy).0", "fee_pool is changed by %s" % sig(e)[:200], t.where(cb))
         if ok:
             d = q.var_def_exprs(t, v[1][2][0][1]) if v[1][2][0][0] == "var" else []
-            r.check(len(d) == 1 and sig(d[0][1]) == "Option::unwrap(SmtMapping::get($1.pools, PoolKey::new(Denom::Mel{}, Denom::Sym{})))", "subsidy/pool", "taken from the MEL/SYM pool", "taken from %s" % [sig(x[1]) for x in d])
+            r.check(len(d) == 1 and sig(d[0][1]).replace("(self.pools", "($1.pools") == "Option::unwrap(SmtMapping::get($1.pools, PoolKey::new(Denom::Mel{}, Denom::Sym{})))", "subsidy/pool", "taken from the MEL/SYM pool", "taken from %s" % [sig(x[1]) for x in d])
     # schedule: reward = (1<<20) >> ((height − TIP909)/1e6); fee + erg = reward under both TIP-909a settings
     rw = q.var_def_exprs(t, "reward")
     s = sig(rw[0][1]) if len(rw) == 1 else "?"
-    r.check(s == "Shr(1048576, Div(core::num::<impl u64>::saturating_sub($1.height.0, TIP_909_HEIGHT), 1000000))", "subsidy/schedule", "reward = 2^20 >> ((height − TIP-909)/10^6)", "reward = %s" % s)
+    r.check(s.replace("(self.height", "($1.height") == "Shr(1048576, Div(core::num::<impl u64>::saturating_sub($1.height.0, TIP_909_HEIGHT), 1000000))", "subsidy/schedule", "reward = 2^20 >> ((height − TIP-909)/10^6)", "reward = %s" % s)
     flag = [e for bi, e in q.call_exprs(t, "UnsealedState::tip_909a")]
     sm = q.call_exprs(t, "PoolState::swap_many")
     r.check(len(sm) == 2, "subsidy/two-injections", "two injections (fee, ERG)", "%d injections" % len(sm))
